@@ -198,6 +198,11 @@ func Walk(v Visitor, node ast.Node) {
 			Walk(v, declaration)
 		}
 
+	case *ast.Raw:
+		if n.Text != nil {
+			Walk(v, n.Text)
+		}
+
 	case *ast.Return:
 		for _, value := range n.Values {
 			Walk(v, value)
@@ -322,7 +327,6 @@ func Walk(v Visitor, node ast.Node) {
 		*ast.Identifier,
 		*ast.Comment,
 		*ast.Text,
-		*ast.Raw,
 		*ast.Placeholder,
 		*ast.Interface,
 		*ast.Fallthrough:
